@@ -8,6 +8,7 @@ import (
 	"os/exec"
 	"path/filepath"
 	"strings"
+	"time"
 
 	"github.com/Trendyol/go-dcp/config"
 	"github.com/Trendyol/go-dcp/metadata"
@@ -25,9 +26,11 @@ import (
 type memMeta struct {
 	docs   map[uint16]*models.CheckpointDocument
 	writes int
+	saves  int
 }
 
 func (m *memMeta) Save(state map[uint16]*models.CheckpointDocument, dirty map[uint16]bool, _ string) error {
+	m.saves++
 	for vb, d := range state {
 		if dirty[vb] {
 			b, _ := sonic.Marshal(d)
@@ -114,6 +117,8 @@ func init() {
 			for _, b := range c02Backends {
 				out = append(out, Instance{Scenario: "c02_resume", Params: mustJSON(ResumeParams{Backend: b}), Bound: 0, Shards: 2})
 			}
+			out = append(out, Instance{Scenario: "c02_readonly_dcp", Params: mustJSON(struct{}{}), Bound: 0, Note: "read-only mode through the real Dcp.Start(), also for a backend handed in with SetMetadata"})
+			out = append(out, Instance{Scenario: "c02_rebalance", Params: mustJSON(struct{}{}), Bound: 0, Shards: 4, Note: "second and third session of one process after real rebalances that shrink / grow / shift the assignment"})
 			out = append(out, Instance{Scenario: "c02_loadfault", Params: mustJSON(struct{}{}), Bound: 0, Note: "a checkpoint lookup answered with an error other than key-not-found: fail fast or resume exactly, never from zero"})
 			for _, b := range []string{"couchbase", "file", "custom"} {
 				out = append(out, Instance{Scenario: "c02_roundtrip", Params: mustJSON(ResumeParams{Backend: b}), Bound: 0, Shards: 4})
@@ -473,4 +478,137 @@ func loadFaultMain() {
 		}
 	}
 	vrt.SetOutcome(desc + " started")
+}
+
+// c02_rebalance: "each assigned vBucket is requested with exactly what is persisted for it" in the SECOND and
+// third session of one process: real Rebalance() calls that shrink, grow and shift the assignment (dynamic
+// membership), with checkpoints persisted for every vBucket of the bucket (some by this member's own saves,
+// the others by former owners).
+func init() {
+	scenarios["c02_rebalance"] = func(raw json.RawMessage) *vrt.Scenario {
+		return &vrt.Scenario{Name: "c02_rebalance", FreeChoices: true, NoTimerAlt: true, MaxSteps: 400000, Main: func() {
+			resetGlobals()
+			const nvb = 4
+			o := EnvOpts{Vbs: nvb, CheckpointType: "manual", MembershipType: "dynamic", WrapMeta: true}
+			c := NewCluster(&o)
+			stored := map[uint16]c02Tuple{}
+			for vb := uint16(0); vb < nvb; vb++ {
+				c.Vb[vb].High = 50
+				t := c02Tuple{uuid: 9000 + uint64(vb), seq: 10 + uint64(vb), s0: 8, s1: 20}
+				stored[vb] = t
+				seedCheckpoint(c, srcBucket, "g", vb, t.uuid, t.seq, t.s0, t.s1)
+			}
+			e := NewEnv(c, o)
+			nums := [][2]int{{1, 2}, {2, 2}, {1, 1}, {1, 4}, {3, 4}}
+			cur := nums[vrt.Choose(len(nums), true, "first-numbering")]
+			publishInfo(e, cur[0], cur[1])
+			e.Bus.WaitAsync()
+			e.Stream.Open()
+			c.WaitIdle()
+			var hist []string
+			check := func() {
+				want := chunkOf(nvb, cur)
+				in := map[uint16]bool{}
+				for _, v := range want {
+					in[v] = true
+				}
+				// the stream requests of the latest session
+				last := map[uint16]*gocbcore.SimRequest{}
+				var t0 int64
+				for _, r := range c.Requests {
+					if r.Kind == "openstream" && r.Issued >= t0 {
+						last[r.Vb] = r
+					}
+				}
+				for vb := uint16(0); vb < nvb; vb++ {
+					if in[vb] != c.StreamOpen(vb) {
+						vrt.Failf("after %v (member %d/%d): vb%d streamed=%v, assigned=%v", hist, cur[0], cur[1], vb, c.StreamOpen(vb), in[vb])
+					}
+					if !in[vb] {
+						continue
+					}
+					r := last[vb]
+					if r == nil {
+						vrt.Failf("after %v: assigned vb%d was never requested", hist, vb)
+						continue
+					}
+					got := c02Tuple{uuid: r.Args[1], seq: r.Args[2], s0: r.Args[4], s1: r.Args[5]}
+					if got != stored[vb] {
+						vrt.Failf("after %v (member %d/%d): vb%d requested from %+v, persisted is %+v", hist, cur[0], cur[1], vb, got, stored[vb])
+					}
+				}
+			}
+			hist = append(hist, fmt.Sprintf("open(%d/%d)", cur[0], cur[1]))
+			check()
+			for i := 0; i < 2; i++ {
+				cur = nums[vrt.Choose(len(nums), true, "next-numbering")]
+				publishInfo(e, cur[0], cur[1])
+				e.Bus.WaitAsync()
+				e.Stream.Rebalance()
+				vrt.Sleep(2 * time.Second)
+				vrt.Quiesce()
+				c.WaitIdle()
+				hist = append(hist, fmt.Sprintf("rebalance(%d/%d)", cur[0], cur[1]))
+				check()
+			}
+			vrt.SetOutcome(fmt.Sprint(hist))
+		}}
+	}
+}
+
+// c02_readonly_dcp: read-only metadata mode through the real Dcp.Start() for every way a backend can be
+// installed (configured couchbase / file, or handed in with SetMetadata): loads are what the backend holds,
+// and nothing is ever written - neither by Commit(), nor by the periodic save, nor by Close().
+func init() {
+	scenarios["c02_readonly_dcp"] = func(raw json.RawMessage) *vrt.Scenario {
+		return &vrt.Scenario{Name: "c02_readonly_dcp", FreeChoices: true, NoTimerAlt: true, MaxSteps: 2_000_000, Main: func() {
+			resetGlobals()
+			backend := []string{"couchbase", "custom"}[vrt.Choose(2, true, "backend")]
+			cp := []string{"auto", "manual"}[vrt.Choose(2, true, "checkpoint-type")]
+			o := DcpOpts{}
+			o.Vbs = 2
+			o.CheckpointType = cp
+			o.AutoAck = true
+			o.ReadOnly = true
+			o.CheckpointInterval = 5 * time.Second
+			c := NewCluster(&o.EnvOpts)
+			c.Append(0, marker(1, 2), mut(1, "a1"), mut(2, "a2"))
+			c.Append(1, marker(1, 1), mut(1, "b1"))
+			mem := &memMeta{docs: map[uint16]*models.CheckpointDocument{}}
+			e := NewDcpEnv(c, o)
+			if e.Err != nil {
+				vrt.Failf("newDcp: %v", e.Err)
+				return
+			}
+			if backend == "custom" {
+				e.D.SetMetadata(mem)
+			}
+			w0 := len(c.Writes)
+			e.Start()
+			vrt.Quiesce()
+			c.WaitIdle()
+			e.D.Commit()
+			vrt.Sleep(12 * time.Second) // two periodic saves in auto mode
+			c.WaitIdle()
+			e.D.Close()
+			vrt.Block("dcp closed", func() bool { return e.Done })
+			desc := fmt.Sprintf("read-only metadata mode, backend=%s checkpoint=%s, %d events acknowledged", backend, cp, len(e.Cons.Events))
+			if len(e.Cons.Events) != 3 {
+				vrt.Failf("harness: %s", desc)
+			}
+			var ck []string
+			for _, w := range c.Writes[w0:] {
+				if strings.Contains(w.Key, ":checkpoint:") {
+					ck = append(ck, w.Key)
+				}
+			}
+			if len(ck) > 0 {
+				vrt.Failf("%s: checkpoint documents were written: %v", desc, ck)
+			}
+			if mem.saves > 0 {
+				vrt.Failf("%s: %d Save call(s) reached the custom backend", desc, mem.saves)
+			}
+			vrt.SetOutcome(desc)
+		}}
+	}
 }
